@@ -240,6 +240,13 @@ def exec_body(stmts: list[ast.stmt], env: dict[str, Any], oracle: Oracle | None 
             tg = st.targets[0] if isinstance(st, ast.Assign) else st.target
             if st.value is None:
                 continue
+            if isinstance(tg, (ast.Tuple, ast.List)) and all(isinstance(t, ast.Name) for t in tg.elts):
+                vals = eval_expr(st.value, env, oracle)
+                if not isinstance(vals, (tuple, list)) or len(vals) != len(tg.elts):
+                    raise Raised(ast.Raise(exc=ast.Name(id="ValueError", ctx=ast.Load()), cause=None))
+                for t, v_ in zip(tg.elts, vals):
+                    env[t.id] = v_
+                continue
             if isinstance(tg, ast.Subscript) and not isinstance(tg.slice, ast.Slice):
                 base = eval_expr(tg.value, env, oracle)
                 if isinstance(base, dict):
